@@ -8,32 +8,51 @@ import (
 // substTable maps a real function (by ssa name) to the Go-source model in hcverif/models
 // that replaces it.
 var substTable = map[string]string{
-	"encoding/binary.Read":                          "BinaryRead",
-	"encoding/hex.EncodeToString":                   "HexEncodeToString",
-	"crypto/sha512.New":                             "SHA512New",
-	"crypto/sha256.New":                             "SHA256New",
-	"crypto/sha1.New":                               "SHA1New",
-	"crypto/md5.New":                                "MD5New",
-	"crypto/sha512.Sum512":                          "SHA512Sum512",
-	"crypto/md5.Sum":                                "MD5Sum",
-	"golang.org/x/crypto/hkdf.New":                  "HKDFNew",
-	"golang.org/x/crypto/chacha20poly1305.New":      "AEADNew",
-	"crypto/ed25519.GenerateKey":                    "Ed25519GenerateKey",
-	"crypto/ed25519.Sign":                           "Ed25519Sign",
-	"crypto/ed25519.Verify":                         "Ed25519Verify",
-	"golang.org/x/crypto/curve25519.ScalarBaseMult": "ScalarBaseMult",
-	"golang.org/x/crypto/curve25519.ScalarMult":     "ScalarMult",
-	"strconv.ParseUint":                             "ParseUint",
-	"github.com/tadglines/go-pkgs/crypto/srp.NewSRP":                                  "SRPNew",
-	"(*github.com/tadglines/go-pkgs/crypto/srp.SRP).ComputeVerifier":                  "SRPComputeVerifier",
-	"(*github.com/tadglines/go-pkgs/crypto/srp.SRP).NewServerSession":                 "SRPNewServerSession",
-	"(*github.com/tadglines/go-pkgs/crypto/srp.ServerSession).GetB":                   "SRPGetB",
-	"(*github.com/tadglines/go-pkgs/crypto/srp.ServerSession).ComputeKey":             "SRPComputeKey",
+	"encoding/binary.Read":                           "BinaryRead",
+	"encoding/hex.EncodeToString":                    "HexEncodeToString",
+	"crypto/sha512.New":                              "SHA512New",
+	"crypto/sha256.New":                              "SHA256New",
+	"crypto/sha1.New":                                "SHA1New",
+	"crypto/md5.New":                                 "MD5New",
+	"crypto/sha512.Sum512":                           "SHA512Sum512",
+	"crypto/md5.Sum":                                 "MD5Sum",
+	"golang.org/x/crypto/hkdf.New":                   "HKDFNew",
+	"golang.org/x/crypto/chacha20poly1305.New":       "AEADNew",
+	"crypto/ed25519.GenerateKey":                     "Ed25519GenerateKey",
+	"crypto/ed25519.Sign":                            "Ed25519Sign",
+	"crypto/ed25519.Verify":                          "Ed25519Verify",
+	"golang.org/x/crypto/curve25519.ScalarBaseMult":  "ScalarBaseMult",
+	"golang.org/x/crypto/curve25519.ScalarMult":      "ScalarMult",
+	"strconv.ParseUint":                              "ParseUint",
+	"github.com/tadglines/go-pkgs/crypto/srp.NewSRP": "SRPNew",
+	"(*github.com/tadglines/go-pkgs/crypto/srp.SRP).ComputeVerifier":                     "SRPComputeVerifier",
+	"(*github.com/tadglines/go-pkgs/crypto/srp.SRP).NewServerSession":                    "SRPNewServerSession",
+	"(*github.com/tadglines/go-pkgs/crypto/srp.ServerSession).GetB":                      "SRPGetB",
+	"(*github.com/tadglines/go-pkgs/crypto/srp.ServerSession).ComputeKey":                "SRPComputeKey",
 	"(*github.com/tadglines/go-pkgs/crypto/srp.ServerSession).VerifyClientAuthenticator": "SRPVerifyClientAuthenticator",
-	"(*github.com/tadglines/go-pkgs/crypto/srp.ServerSession).ComputeAuthenticator":   "SRPComputeAuthenticator",
-	"net/http.Error":              "HTTPError",
-	"(*net/http.Response).Write":  "ResponseWrite",
-	"crypto/rand.Read":                              "RandRead",
+	"(*github.com/tadglines/go-pkgs/crypto/srp.ServerSession).ComputeAuthenticator":      "SRPComputeAuthenticator",
+	"os.OpenFile":                "OpenFile",
+	"os.Create":                  "Create",
+	"os.Open":                    "Open",
+	"(*os.File).Write":           "FileWrite",
+	"(*os.File).WriteString":     "FileWriteString",
+	"(*os.File).Read":            "FileRead",
+	"(*os.File).Close":           "FileClose",
+	"(*os.File).Sync":            "FileSync",
+	"(*os.File).Name":            "FileName",
+	"os.Remove":                  "Remove",
+	"os.Rename":                  "Rename",
+	"os.MkdirAll":                "MkdirAll",
+	"os.TempDir":                 "TempDir",
+	"os.ReadFile":                "ReadFile",
+	"os.WriteFile":               "WriteFile",
+	"io/ioutil.ReadDir":          "ReadDir",
+	"io/ioutil.ReadFile":         "ReadFile",
+	"io/ioutil.WriteFile":        "WriteFile",
+	"path/filepath.Abs":          "Abs",
+	"net/http.Error":             "HTTPError",
+	"(*net/http.Response).Write": "ResponseWrite",
+	"crypto/rand.Read":           "RandRead",
 }
 
 func registerSubst(P *Program) error {
